@@ -2,25 +2,36 @@
 """Builds the seeded-change table of DESIGN.md section 12 from tools/matrix.sh logs.
 usage: tools/seeded_table.py <log> [<log> ...]   (lines: '<label> <prop> exit=<n> violations=<k> class(count) ...')"""
 import sys, re, os, json
-rows = {}
-for path in sys.argv[1:]:
-    for l in open(path, errors='replace'):
-        m = re.match(r'(\S+) (C\d+) exit=(\d+) violations=(\d+)\s*(.*)', l.strip())
-        if not m: continue
-        rows.setdefault(m.group(1), {})[m.group(2)] = (int(m.group(3)), int(m.group(4)), m.group(5).strip())
-# map labels to seeded ids
 ids = sorted(os.listdir('/verif/seeded'))
+def sid_early(label):
+    return sid(label)
+
+
 def sid(label):
+    if label.startswith('final-'): return label[len('final-'):]
     m = re.match(r'(?:w(\d)-)?(C\d+)-m(\d)', label)
     wave = int(m.group(1) or 1); p = m.group(2); i = int(m.group(3))
     n = i + {1: 0, 2: 3, 3: 5, 4: 7}[wave]
     for d in ids:
         if d.startswith(f'{p}-{n:02d}-'): return d
     return label
+final_mode = '--final' in sys.argv
+args = [a for a in sys.argv[1:] if a != '--final']
+rows = {}
+for path in args:
+    for l in open(path, errors='replace'):
+        m = re.match(r'(\S+) (C\d+) exit=(\d+) violations=(\d+)\s*(.*)', l.strip())
+        if not m: continue
+        lab = m.group(1)
+        if final_mode != lab.startswith('final-') and not (not final_mode and lab.startswith('final-')): continue
+        key = sid_early(lab)
+        if not final_mode and lab.startswith('final-') and m.group(2) in rows.get(key, {}): continue      # keep the original matrix cell
+        rows.setdefault(key, {})[m.group(2)] = (int(m.group(3)), int(m.group(4)), m.group(5).strip())
+
 print('| seeded change | breaks | needs | C05 | C07 | C18 | C20 |')
 print('|---|---|---|---|---|---|---|')
-for label in sorted(rows, key=lambda x: sid(x)):
-    d = sid(label)
+for label in sorted(rows):
+    d = label
     meta = {}
     mp = f'/verif/seeded/{d}/meta.json'
     if os.path.exists(mp): meta = json.load(open(mp))
